@@ -76,8 +76,12 @@ func (c *Context) SpawnChild(p Producer, name string, opts ...OptFunc) *PID {
 	}
 	proc := newProcess(c.engine, options)
 	proc.context.parentCtx = c
-	pid := c.engine.SpawnProc(proc)
-	c.children.Set(pid.ID, pid)
+	// The child is recorded only when it is really ours (the id may be taken), and
+	// before it starts: from then on its own shutdown takes the entry out again.
+	if c.engine.Registry.insert(proc) {
+		c.children.Set(proc.pid.ID, proc.pid)
+		proc.Start()
+	}
 
 	return proc.PID()
 }
